@@ -253,6 +253,12 @@ func (dsc *dataStoreCommand) setRange(keyName string, offset int, substring stri
 		setBytes = []byte{}
 	}
 
+	if len(substring) == 0 {
+		// nothing to write: the value (or its absence) stays as it is
+		result.data = respInt(len(setBytes))
+		return
+	}
+
 	if len(setBytes) < offset {
 		expanded := make([]byte, offset)
 		copy(expanded, setBytes)
